@@ -11,6 +11,10 @@ spec/trace/NtsKeTrace.tla monitor (property section on the recorded behaviour) a
 2. TLC generates the histories: every peer script of <= 3 (quick) / <= 4 (thorough) records x ALPN answer x
    truncation; every almost-acceptable message (AEAD 15 + cookies + at most one other record, <= 4 / <= 6 records);
    random walks through Next with <= 6 records, 3 exchanges, 6 calls, StoreCookie; the same (smaller) for QUIC.
+   TIME: every script of <= 3 / <= 4 records (QUIC: <= 2 / <= 3; over one representative per record class) in which the peer stalls
+   - at any record boundary, inside a header, inside a body - until the deadline of the call's context has passed
+   and then sends the rest; the walks stall too (under CtxMode "ignored" and "returns": the statement leaves open
+   whether such a call fails at the deadline or returns late; what it says is judged on the calls that follow).
 3. harness/c20 replays them on the real Fetcher / IPClient against a scripted TLS 1.3 peer that exports its own
    keys (every history is followed by a probe call; histories with unrecognised non-critical records are run a
    second time without them), runs the project's own StartNTSKEServerIP against the real Fetcher and opens its
@@ -25,19 +29,20 @@ import vlib
 MON = ["TSuccessOnlyIf", "TIgnoresNonCritical", "TKeysAgree", "TPoolIsIssued", "TPoolReturned", "TDestination",
        "TNoResidue"]
 ACTIONS = ["FetchCached", "Dial", "CheckAlpn", "SendRequest", "ReadRecord", "ReadCut", "PeerClose", "Export",
-           "Finish", "StoreCookie"]
+           "Finish", "StoreCookie", "StallPastDeadline", "LateRecord", "LateClose"]
 
 
 def variants(transport):
     """switch settings of NtsKe.tla tried by strict mode, the repository's current code first:
-    (ResidueAfterFailure, ShortCookieRead, DialResetsData, description)"""
+    (ResidueAfterFailure, ShortCookieRead, DialResetsData, description, CtxMode)"""
     res = []
-    for short in ("FALSE", "TRUE"):
-        for residue, dial in (("FALSE", "FALSE"), ("FALSE", "TRUE"), ("TRUE", "FALSE"), ("TRUE", "TRUE")):
-            if transport == "tls" and dial == "FALSE":
-                continue
-            res.append((residue, short, dial, "ResidueAfterFailure=%s ShortCookieRead=%s DialResetsData=%s" %
-                        (residue, short, dial)))
+    for ctxmode in ("ignored", "returns"):
+        for short in ("FALSE", "TRUE"):
+            for residue, dial in (("FALSE", "FALSE"), ("FALSE", "TRUE"), ("TRUE", "FALSE"), ("TRUE", "TRUE")):
+                if transport == "tls" and dial == "FALSE":
+                    continue
+                res.append((residue, short, dial, "ResidueAfterFailure=%s ShortCookieRead=%s DialResetsData=%s CtxMode=%s" %
+                            (residue, short, dial, ctxmode), ctxmode))
     return res
 
 
@@ -65,11 +70,11 @@ class Lane:
         vlib.write_ndjson(os.path.join(self.dir, "trace.ndjson"),
                           [dict(total=total, evs=[slim(e) for e in c]) for c in part])
 
-    def validate(self, transport, residue, short, dialresets, body, timeout=600):
+    def validate(self, transport, residue, short, dialresets, body, timeout=600, ctxmode="ignored"):
         """returns (ok, history number, operation number, violated, output)"""
         cfg = "lane_NtsKeTrace.cfg"
         with open(os.path.join(self.dir, cfg), "w") as f:
-            f.write(trace_cfg(transport, residue, short, dialresets, body))
+            f.write(trace_cfg(transport, residue, short, dialresets, body, ctxmode))
         tp = os.path.join(self.dir, "trace.ndjson")
         ok, l, inv, out = self.ctx.validate("NtsKeTrace", cfg, tp, timeout=timeout, workers=4)
         pm = re.findall(r"^/?\\?\s*p = (\d+)\s*$", out, re.M) if not ok else []
@@ -86,10 +91,11 @@ def slim(e):
     return d
 
 
-def trace_cfg(transport, residue, short, dialresets, body):
+def trace_cfg(transport, residue, short, dialresets, body, ctxmode="ignored"):
     return ("SPECIFICATION TSpec\nCONSTANTS\n  Transport = \"%s\"\n  ResidueAfterFailure = %s\n  ShortCookieRead = %s\n"
             "  DialResetsData = %s\n  Alpns = {}\n  Alphabet = {}\n  CutRecs = {}\n  MaxRecs = 0\n  MaxDials = 0\n"
-            "  MaxCalls = 0\n  MaxStore = 0\n%s\nPOSTCONDITION Consumed\n" % (transport, residue, short, dialresets, body))
+            "  MaxCalls = 0\n  MaxStore = 0\n  CtxMode = \"%s\"\n  MaxStalls = 0\n%s\nPOSTCONDITION Consumed\n"
+            % (transport, residue, short, dialresets, ctxmode, body))
 
 
 def split_cases(evs):
@@ -166,6 +172,34 @@ def classify(inv, e):
     return "%s %s" % (src, e["via"])
 
 
+def stall_census(cases):
+    """how the generated histories exercise the time dimension"""
+    c = dict(histories=0, ops=0, bnd=0, hdr=0, body=0, cookie_after=0, complete_after=0, walks=0, followed=0)
+    for case in cases:
+        h = case["h"]
+        hit = False
+        for i, op in enumerate(h):
+            w = op.get("stallw", "none")
+            if op["op"] != "fetch" or w == "none":
+                continue
+            hit = True
+            c["ops"] += 1
+            c[w] += 1
+            rest = op["recs"][op["stall"]:]
+            c["cookie_after"] += "ck" in rest          # a cookie record completed after the stall
+            c["complete_after"] += "eom" in rest       # the message is brought to its end after the stall
+            c["followed"] += any(o["op"] == "fetch" for o in h[i + 1:])   # (besides the probe the driver appends)
+        c["histories"] += hit
+        c["walks"] += hit and len(h) > 1
+    return c
+
+
+def census_text(c):
+    return ("%(histories)d histories / %(ops)d exchanges (at a record boundary %(bnd)d, inside a header %(hdr)d, inside a "
+            "body %(body)d; cookie records after the stall in %(cookie_after)d, End of Message after it in "
+            "%(complete_after)d; %(walks)d multi-call walks, further generated calls after the stalled one in %(followed)d)" % c)
+
+
 def corrupt(evs, what):
     """corrupted-trace-field control (VERIF_C20_CORRUPT=pool|key|dest|ok): falsify one recorded field"""
     for i, e in enumerate(evs):
@@ -213,7 +247,7 @@ def validate_all(ctx, pool, evs, transport, label):
             strict = hit is None and vi < len(order)
             v = order[vi] if strict else order[0]
             body = ("INVARIANTS " + " ".join(todo) + "\n" if todo else "") + ("PROPERTIES StrictProp" if strict else "")
-            ok, l, pp, inv, out = lane.validate(transport, v[0], v[1], v[2], body)
+            ok, l, pp, inv, out = lane.validate(transport, v[0], v[1], v[2], body, ctxmode=v[4])
             if ok:
                 if strict:
                     hit = v
@@ -273,7 +307,7 @@ def run(ctx):
 def _run(ctx):
     q = ctx.quick
     ctx.specdir()             # (created lazily by vlib: before the threads start)
-    jobs = ThreadPoolExecutor(max_workers=6)
+    jobs = ThreadPoolExecutor(max_workers=9)
     nsim, nqsim = (150, 60) if q else (2000, 600)
 
     def sim(cfg, n):
@@ -283,16 +317,14 @@ def _run(ctx):
             raise vlib.Inconclusive("%s produced only %d histories" % (cfg, len(beh)))
         return beh
 
-    # ---- 1. design level (the TLC runs are independent of each other: started together)
-    f_exh = jobs.submit(ctx.tlc, "NtsKeMC", "NtsKe_exh.cfg" if q else "NtsKe_deep.cfg", timeout=300 if q else 1200)
-    f_cov = jobs.submit(ctx.tlc, "NtsKeMC", "NtsKe_cov.cfg", workers=2, timeout=240, coverage=True, tag="coverage")
-    f_fth = jobs.submit(ctx.tlc, "NtsKeMC", "NtsKe_faithful.cfg", workers=2, timeout=240, allow_violation=True, tag="old-switch")
-    f_q = [jobs.submit(ctx.tlc, "NtsKeMC", "NtsKe_quic_%s.cfg" % n, workers=2, timeout=300, allow_violation=n != "exh",
-                       tag="quic:" + n) for n in (("exh", "faithful", "fix1") if not q else ("faithful",))]
-    # ---- 2. histories from the specification
+    # ---- 2. histories from the specification (first in the queue: the driver waits for them)
     f_gen = jobs.submit(ctx.tlc, "NtsKeGen", "NtsKe_gen.cfg" if q else "NtsKe_gendeep.cfg", workers=1, timeout=600, tag="gen")
     f_dec = jobs.submit(ctx.tlc, "NtsKeGen", "NtsKe_gendec.cfg" if q else "NtsKe_gendecdeep.cfg", workers=1, timeout=600,
                         tag="gen:decorated")
+    f_stall = jobs.submit(ctx.tlc, "NtsKeGen", "NtsKe_genstall.cfg" if q else "NtsKe_genstalldeep.cfg", workers=1,
+                          timeout=600, tag="gen:stall")
+    f_qstall = jobs.submit(ctx.tlc, "NtsKeGen", "NtsKe_qgenstall.cfg" if q else "NtsKe_qgenstalldeep.cfg", workers=1,
+                           timeout=600, tag="gen:quic-stall")
     f_sim = [jobs.submit(sim, cfg, nsim) for cfg in ("NtsKe_sim.cfg", "NtsKe_simrep.cfg")]
     f_qgen = jobs.submit(ctx.tlc, "NtsKeGen", "NtsKe_qgen.cfg", workers=1, timeout=600, tag="gen:quic")
     f_qdec = jobs.submit(ctx.tlc, "NtsKeGen", "NtsKe_qgendec.cfg", workers=1, timeout=600, tag="gen:quic-decorated")
@@ -306,18 +338,42 @@ def _run(ctx):
     if len(dec) < 500:
         raise vlib.Inconclusive("generator of almost-acceptable messages produced only %d scripts" % len(dec))
     cases += dec
+    stall = ctx.emitted(f_stall.result()["out"])
+    cases += stall
     nexh = len(cases)
     for f in f_sim:
         cases += f.result()
     cp = ctx.path("cases.ndjson")
     vlib.write_ndjson(cp, cases)
     qcases = ctx.emitted(f_qgen.result()["out"]) + ctx.emitted(f_qdec.result()["out"])
+    qstall = ctx.emitted(f_qstall.result()["out"])
+    qcases += qstall
     nqexh = len(qcases)
     qcases += f_qsim.result()
     qp = ctx.path("qcases.ndjson")
     vlib.write_ndjson(qp, qcases)
     ctx.log("TLC generated %d single-exchange scripts (exhaustive) + %d multi-call histories (simulation); "
             "QUIC: %d + %d" % (nexh, len(cases) - nexh, nqexh, len(qcases) - nqexh))
+    # vacuity guard for the time dimension, judged on what the SPECIFICATION generated (not on how the code reacted)
+    sg, qsg = stall_census(cases), stall_census(qcases)
+    ctx.log("of these, the peer stalls past the caller's deadline in: " + census_text(sg) + "; QUIC: " + census_text(qsg))
+    if len(stall) < 500 or sg["bnd"] < 250 or sg["hdr"] < 150 or sg["body"] < 60 or sg["cookie_after"] < 250 \
+            or sg["walks"] < 50 or sg["followed"] < 50:
+        raise vlib.Inconclusive("the generators exercise the stall dimension too little: %s" % census_text(sg))
+    if len(qstall) < 100 or qsg["cookie_after"] < 30:
+        raise vlib.Inconclusive("the QUIC generators exercise the stall dimension too little: %s" % census_text(qsg))
+    # ---- 1. design level (independent of each other and of the rest: started now: they run while the driver does)
+    f_exh = jobs.submit(ctx.tlc, "NtsKeMC", "NtsKe_exh.cfg" if q else "NtsKe_deep.cfg", timeout=300 if q else 1200)
+    f_cov = jobs.submit(ctx.tlc, "NtsKeMC", "NtsKe_cov.cfg", workers=2, timeout=240, coverage=True, tag="coverage")
+    f_fth = jobs.submit(ctx.tlc, "NtsKeMC", "NtsKe_faithful.cfg", workers=2, timeout=240, allow_violation=True, tag="old-switch")
+    f_q = [jobs.submit(ctx.tlc, "NtsKeMC", "NtsKe_quic_%s.cfg" % n, workers=2, timeout=300, allow_violation=n != "exh",
+                       tag="quic:" + n) for n in (("exh", "faithful", "fix1") if not q else ("faithful",))]
+    # TIME: the caller's deadline passes while the peer stalls; the call fails there ("returns") or goes on when the
+    # peer does ("ignored"); the variant that leaves a reader behind ("abandons") is a spec self-test
+    f_ctx = [jobs.submit(ctx.tlc, "NtsKeMC", cfg, workers=4, timeout=300 if q else 900, tag="deadline:" + cfg)
+             for cfg in (("NtsKe_ctx_exh.cfg",) if q else ("NtsKe_ctx_deep.cfg", "NtsKe_ctx_igndeep.cfg"))]
+    f_aban = jobs.submit(ctx.tlc, "NtsKeMC", "NtsKe_ctx_abandons.cfg", workers=2, timeout=240, allow_violation=True,
+                         tag="deadline:self-test")
     # ---- 3. the real code (while the exhaustive run may still be going on)
     tp, out = ctx.godriver("c20", "TestC20", cases=cp, timeout=300 if q else 1500, extra=("-v",))
     evs = vlib.read_ndjson(tp)
@@ -329,6 +385,7 @@ def _run(ctx):
     qtp, out = ctx.godriver("c20", "TestQUIC", cases=qp, out_name="quic.ndjson", timeout=600, extra=("-v",))
     qevs = vlib.read_ndjson(qtp)
     ctx.log("scripted peer over QUIC: " + " ".join(l[8:] for l in out.splitlines() if l.startswith("C20QUIC")))
+    qstats = dict(kv.split("=") for line in out.splitlines() if line.startswith("C20QUIC") for kv in line.split()[1:])
     what = os.environ.get("VERIF_C20_CORRUPT")
     if what:
         i = corrupt(evs, what)
@@ -366,8 +423,33 @@ def _run(ctx):
             if not x["violated"]:
                 raise vlib.Inconclusive("spec self-test: %s should violate the property section" % x["cfg"])
             info.append("%s: %s" % (x["cfg"], x["violated"]))
+    ab = f_aban.result()
+    if ab["violated"] != "NoResidue":
+        raise vlib.Inconclusive("spec self-test: the variant with CtxMode = \"abandons\" (the call returns at the deadline, a "
+                                "reader left behind keeps filling Fetcher.data) should violate NoResidue, TLC says %s" % ab["violated"])
+    info.append("TLS, CtxMode = \"abandons\": NoResidue")
     ctx.notes.append("spec self-test: the old-switch variants of NtsKe.tla violate the property section on the "
                      "specification (information only): " + "; ".join(info))
+    dl = [f.result() for f in f_ctx]
+    ctx.log("TLC exhaustive with the deadline passing during a stall: " +
+            "; ".join("%s %d distinct states" % (x["cfg"], x["distinct"]) for x in dl) + ", property section holds")
+    early = int(stats.get("returned-early", 0))
+    ctx.notes.append(
+        "time dimension (the deadline of the caller's context passes while the peer stalls, then the peer continues). "
+        "SPEC side: StallPastDeadline / LateRecord / LateClose of NtsKe.tla; TLC: %s (property section holds), CtxMode = "
+        "\"abandons\" refuted (NoResidue); generated for replay: TLS %s; QUIC %s. CODE side (information): %s TLS / %s QUIC "
+        "exchanges in which the peer got as far as its stall (the deadline of the call's context passes when the peer has fallen silent; the "
+        "peer goes on once the call has returned or %s later); the call "
+        "had returned before the peer went on in %d TLS / %s QUIC of them (the code as it is never looks at the context while "
+        "reading: these are calls that had failed on an earlier record; failing at the deadline and returning late are both "
+        "admitted); every such call is followed by a 'late' observation of the "
+        "Fetcher after the peer has closed and nothing started by the call runs any more (not settled in time: %s / %s), "
+        "and by at least one further call, on which NoResidue / KeysAgree / PoolIsIssued / Destination are judged"
+        % ("; ".join("%s %d states" % (x["cfg"], x["distinct"]) for x in dl), census_text(sg), census_text(qsg),
+           stats.get("stalled", "?"), qstats.get("stalled", "?"), "15 ms", early, qstats.get("returned-early", "?"),
+           stats.get("unsettled", "?"), qstats.get("unsettled", "?")))
+    ctx.cov["stall_dimension"] = dict(spec_tls=sg, spec_quic=qsg, code_tls={k: stats.get(k) for k in
+                                      ("stalled", "returned-early", "late-records", "unsettled")}, code_quic=qstats)
     jobs.shutdown()
     calls = [e for e in evs + own + qevs if e["ev"] == "call"]
     distinct = len({(e["src"], json.dumps(e["served"], sort_keys=True), e["dialed"], e["via"]) for e in calls})
@@ -381,6 +463,10 @@ def _run(ctx):
                          "by C20's clauses): %s" % json.dumps(panics))
     firstok = next((e for e in evs if e["ev"] == "call" and e["ok"] and e["dialed"]), None)
     qok = next((e for e in qevs if e["ev"] == "call" and e["ok"] and e["dialed"]), None)
+    # a call whose peer stalled past the deadline (with cookies after the stall), and the observation that follows it
+    si = next((i for i, e in enumerate(evs) if e["ev"] == "call" and e["dialed"] and e["served"]["stallw"] != "none"
+               and "ck" in e["served"]["recs"][e["served"]["stall"]:]), None)
+    stalled = evs[si:si + 2] if si is not None else []
     ctx.cov.update(
         evaluations=len(calls), distinct_nontrivial=distinct, events_validated=nev,
         traces_validated_against_impl=nval, exhaustive=True,
@@ -388,12 +474,16 @@ def _run(ctx):
              "ALPN answer, and every message of <= %d records made of AEAD(15) and cookie records plus at most one record of "
              "any other kind (TLC-enumerated, exhaustive), each followed by a probe call; plus tlc -simulate walks through "
              "NtsKe's Next (<= 6 records, 3 exchanges, 6 calls, StoreCookie) from the old-switch and the default variant; "
+             "every script of <= %d records over {AEAD 15, cookie, server, unknown non-critical, error, End} in which the peer "
+             "stalls past the deadline of the call's context at a record boundary / inside a header / inside a body and then "
+             "goes on (the walks stall too), each followed by an observation of the Fetcher after the peer has finished and "
+             "by a probe call; "
              "histories containing unrecognised non-critical records also run without them; the project's own "
              "StartNTSKEServerIP against the real Fetcher with its cookies opened; 20%% of the TLS calls go through "
              "client.MeasureClockOffsetIP with the NTP request captured; the same over QUIC on a same-AS empty SCION path "
              "(scripts of <= 2 records exhaustively + walks); distinct = distinct (transport, served script, dialed, via)"
-             % ((3, 4) if q else (4, 6)),
-        samples=[{k: x[k] for k in x if k != "twin"} for x in (firstok, own[1] if len(own) > 1 else None, qok) if x])
+             % ((3, 4, 3) if q else (4, 6, 4)),
+        samples=[{k: x[k] for k in x if k != "twin"} for x in [firstok, own[1] if len(own) > 1 else None, qok] + stalled if x])
     ctx.assumptions += [
         "the scripted peer writes each message in one TLS record / one stream write and closes gracefully "
         "(segmentation is C14's subject)",
@@ -403,4 +493,11 @@ def _run(ctx):
         "own server: the cookies 'issued' are those that open under the provider's key (its wire is not observable)",
         "ALPN answers 'other' and 'refused' end in a failed handshake on either side (crypto/tls offers no way to "
         "select a protocol the client did not offer); over QUIC a handshake without ALPN is impossible",
-        "QUIC: only FetchData is driven (no NTP request over SCION is sent); Destination is judged on the returned Data"]
+        "QUIC: only FetchData is driven (no NTP request over SCION is sent); Destination is judged on the returned Data",
+        "time: the deadline of the context a call against a stalling peer is made with passes (Done closed, Err = "
+        "DeadlineExceeded) at the moment the peer has fallen silent, not at a wall-clock time (the context announces no "
+        "Deadline, so dialling and handshake cannot be cut short by it); the stall ends when the call has returned or 15 ms "
+        "later; the next operation on the Fetcher starts after the "
+        "peer has closed that connection and no goroutine started by the call runs repository code any more (goroutine "
+        "labels; at most 2 s) - overlap of late records with the NEXT call is not generated; calls through "
+        "MeasureClockOffsetIP are not made against a stalling peer"]
